@@ -1,6 +1,14 @@
+def _post(ctx):
+    # the parser engine itself as a Gallina interpreter (DESIGN.md 6.21): translator + correspondence with the
+    # root MatchResult of the real parser, and the span-bounds theorem (first clause of wf) for every combinator
+    import cpem
+    cpem.pem_stage(ctx, with_cases=True)
+
+
 CFG = dict(
+    post=_post,
     prop="C02", level="proof", harness="c02",
-    props_files=["theories/Props/C02.v"], corr_file="theories/Corr/C02.v", corr_module="Corr.C02",
+    props_files=["theories/Props/C02.v", "theories/Props/Pem.v"], corr_file="theories/Corr/C02.v", corr_module="Corr.C02",
     groups={"root": False, "append": False, "wrap": False},
     show_fn={"root": "model_root", "append": "model_append", "wrap": "model_wrap"},
     shard=120,
@@ -8,7 +16,8 @@ CFG = dict(
     technique="Coq proof (MatchResult::apply re-slices exactly its span for every well-formed match; root_parse covers every "
               "token; append/wrap preserve well-formedness) + correspondence of the Gallina root_parse/apply/append/wrap with "
               "the real parser on recorded (tokens, root MatchResult) + direct observation leaves(tree) == lexer tokens",
-    level_text="C02_apply_leaves / C02_root / C02_unparsable_kept / C02_append_WF / C02_wrap_WF are closed Coq theorems for every token "
+    level_text="Pem (DESIGN 6.21): the combinator engine is also modelled, as a Gallina interpreter over the dumped grammar graphs, validated on every run against the root MatchResult of the real parser (4 dialects quick / 13 thorough); Pem_match_bounds / Pem_root_bounds prove for every grammar and token list that every match result satisfies idx <= start <= end <= len (the span clause of wf). The remaining clauses of wf stay a monitored hypothesis (they are false for arbitrary graphs). "
+               "C02_apply_leaves / C02_root / C02_unparsable_kept / C02_append_WF / C02_wrap_WF are closed Coq theorems for every token "
                "array and every well-formed MatchResult (unbounded depth and width): apply never panics and its non-meta leaves are "
                "exactly the token slice of its span, in order, each once; root_parse returns a File tree whose non-meta leaves are "
                "exactly all tokens (unmatched tail under Unparsable / trailing File node) or the grammar's parse error. "
